@@ -88,6 +88,17 @@ pub fn id(r: &mut Rng) -> String {
     }
 }
 
+/// random bytes; one time in six (when they fit) the storage-header pattern is embedded, so that
+/// payloads, raw values and network-trace slices contain `DLT\x01` themselves
+pub fn blob_bytes(r: &mut Rng, n: usize) -> Vec<u8> {
+    let mut v = r.bytes(n);
+    if n >= 4 && r.chance(1, 6) {
+        let at = r.below((n - 3) as u64) as usize;
+        v[at..at + 4].copy_from_slice(&[0x44, 0x4c, 0x54, 0x01]);
+    }
+    v
+}
+
 pub fn text(r: &mut Rng, big: bool) -> String {
     match r.below(20) {
         0 => String::new(),
@@ -96,6 +107,7 @@ pub fn text(r: &mut Rng, big: bool) -> String {
             "x".repeat(n)
         }
         2..=4 => utf8_no_nul(r, 40),
+        5 => format!("{}DLT\u{1}{}", utf8_no_nul(r, 6), utf8_no_nul(r, 6)),
         _ => utf8_no_nul(r, 8),
     }
 }
@@ -238,7 +250,7 @@ pub fn argument_for(r: &mut Rng, ti: TypeInfo, big: bool) -> Argument {
                 1 if big => r.range(100, 2000) as usize,
                 _ => r.below(12) as usize,
             };
-            (None, None, Value::Raw(r.bytes(n)))
+            (None, None, Value::Raw(blob_bytes(r, n)))
         }
     };
     Argument {
@@ -391,7 +403,7 @@ pub fn message(r: &mut Rng, o: &MsgOpts) -> Message {
             2 if o.big => r.range(1000, (budget - fixed) as u64) as usize,
             _ => r.below(24) as usize,
         };
-        r.bytes(n)
+        blob_bytes(r, n)
     };
     let (payload, ext): (PayloadContent, Option<(bool, MessageType)>) = if !has_ext {
         (
@@ -441,7 +453,7 @@ pub fn message(r: &mut Rng, o: &MsgOpts) -> Message {
                         break;
                     }
                     used += 6 + k;
-                    slices.push(r.bytes(k));
+                    slices.push(blob_bytes(r, k));
                 }
                 (
                     PayloadContent::NetworkTrace(slices),
